@@ -70,7 +70,19 @@ func mutate(r *core.Rand, cmd [][]byte) ([]byte, string) {
 	for attempt := 0; attempt < 20; attempt++ {
 		var out []byte
 		kind := ""
-		switch r.Intn(12) {
+		switch r.Intn(14) {
+		case 12, 13:
+			// the declared length is shorter than the payload, and the payload carries
+			// a complete command behind a CRLF: a server that resynchronises after the
+			// framing error instead of dropping the connection would execute it
+			kind = "embedded-command-in-short-bulk"
+			inner := rd.EncodeCommand(cmd)
+			payload := append([]byte("AAAAAAAAA\r\n"), inner...)
+			var b bytes.Buffer
+			b.WriteString("*3\r\n$3\r\nSET\r\n$6\r\nc0:pad\r\n$5\r\n")
+			b.Write(payload)
+			b.WriteString("\r\n")
+			out = b.Bytes()
 		case 0:
 			kind = "bulk-length-short"
 			out = bytes.Replace(enc, []byte(fmt.Sprintf("$%d\r\n", len(cmd[len(cmd)-1]))), []byte(fmt.Sprintf("$%d\r\n", max(len(cmd[len(cmd)-1])-1-r.Intn(2), 0))), 1)
